@@ -282,6 +282,9 @@ def blocking_rx_run(rng):
 
 
 def run_shard(campaign, shard, nshards, seed, tier):
+    if campaign == 'api':
+        import apiuse
+        return apiuse.run_api('C07', shard, nshards, seed, tier)
     part = Part()
     rng = random.Random('%s/%s/%s' % (seed, campaign, shard))
     quick = tier != 'thorough'
@@ -332,4 +335,6 @@ def run(ctx):
         run_sharded(ctx, 'C07', c)
     res = coqtables.check_to_ns_table(ctx)
     ctx.exhaustive['ms -> ns timer conversion, all integers 0..20000 ms (Coq PrimFloat vs harness expression)'] = res
-    return RULE, ASSUME
+    run_sharded(ctx, 'C07', 'api', nshards=2)
+    import apiuse
+    return RULE + apiuse.rule_text('C07'), ASSUME
